@@ -294,15 +294,17 @@ def maskError (mask : MapObj) (maskBits : Option Int) (bitArr : Option (List Nat
 
 /-- **the "bad cell" decision** on one value `v` of the mask map: a wide mask: any byte
     non-zero / any selected bit set; an integer mask: `≠ 0` / `& mask_bits ≠ 0` (two's
-    complement at the mask's dtype); a boolean mask: the value (and the lowest selected bit) -/
+    complement at the mask's dtype) AND the cell is VALID in the mask map (`≠` its sentinel:
+    after the `fix:` commit ec2f28a an unset pixel of a signed mask, which reads as the non-zero
+    sentinel, no longer masks); a boolean mask: the value (and the lowest selected bit) -/
 def maskBadVal (mask : MapObj) (maskBits : Option Int) (bitArr : Option (List Nat)) (v : Val) : Bool :=
   match v, maskBits with
   | .bytes row, _ =>
     (match bitArr with
      | none => row.any (· != 0)
      | some l => (List.zipWith (· &&& ·) row (bitvalsToPacked l mask.maxbits)).any (· != 0))
-  | .num n _, none => n != 0
-  | .num n _, some b => intBitop (· &&& ·) mask.kind.dt n b != 0
+  | .num n e, none => n != 0 && mask.vc.valid (.num n e)
+  | .num n e, some b => intBitop (· &&& ·) mask.kind.dt n b != 0 && mask.vc.valid (.num n e)
   | .bool x, none => x
   | .bool x, some b => x && b % 2 != 0
   | _, _ => false
@@ -691,77 +693,57 @@ theorem zipAnd_zero (row bv : List Nat) (h : row.all (· == 0) = true) :
       simp only [List.zipWith_cons_cons, List.any_cons, Nat.zero_and, bne_self_eq_false, Bool.false_or]
       exact ih bs has
 
-theorem wrapInt_zero {b : Nat} (sg : Bool) (hb : 0 < b) : wrapInt b sg 0 = 0 := by
-  unfold wrapInt
-  have h2 : (0 : Int) < (2 : Int) ^ b / 2 := by
-    have : (2 : Int) ^ b = 2 * 2 ^ (b - 1) := by
-      rw [show b = (b - 1) + 1 by omega, Int.pow_succ]; simp [Int.mul_comm]
-    rw [this, Int.mul_ediv_cancel_left _ (by decide)]
-    exact Int.pow_pos (by decide)
-  show (if (sg && decide ((0 : Int) % 2 ^ b ≥ 2 ^ b / 2)) = true then (0 : Int) % 2 ^ b - 2 ^ b
-    else (0 : Int) % 2 ^ b) = 0
-  split
-  · rename_i hc
-    have h0 : (0 : Int) % 2 ^ b = 0 := Int.zero_emod _
-    rw [h0] at hc
-    have := hc
-    simp only [Bool.and_eq_true, decide_eq_true_eq] at this
-    omega
-  · exact Int.zero_emod _
+/-- **a numeric cell of the mask is bad only if it is VALID in the mask map** (the conjunct added
+    by the `fix:` commit) -/
+theorem maskBadVal_num_valid {mask : MapObj} {mb : Option Int} {ba : Option (List Nat)} {n : Int}
+    {e : Nat} (h : maskBadVal mask mb ba (.num n e) = true) : mask.vc.valid (.num n e) = true := by
+  unfold maskBadVal at h
+  cases mb <;> simp only [Bool.and_eq_true] at h <;> exact h.2
 
-/-- **a zero cell is never bad** (with `mask_bits`: for a dtype of positive width) -/
-theorem maskBadVal_zero (mask : MapObj) (mb : Option Int) (ba : Option (List Nat)) (v : Val)
-    (hz : v.isZero = true)
-    (hb : mb = none ∨ ∀ b sg, mask.kind.dt = .int b sg → 0 < b) :
-    maskBadVal mask mb ba v = false := by
+/-- an all-zero byte row is never bad -/
+theorem maskBadVal_zero_bytes (mask : MapObj) (mb : Option Int) (ba : Option (List Nat))
+    (row : List Nat) (hr : row.all (· == 0) = true) : maskBadVal mask mb ba (.bytes row) = false := by
   unfold maskBadVal
-  cases v with
-  | num n e =>
-    have hn : n = 0 := by simpa [Val.isZero] using hz
-    subst hn
-    cases mb with
-    | none => rfl
-    | some q =>
-      simp only [bne_eq_false_iff_eq]
-      unfold intBitop
-      cases hdt : mask.kind.dt with
-      | int b sg =>
-        have hpos : 0 < b := by
-          rcases hb with h | h
-          · cases h
-          · exact h b sg hdt
-        simp only [Int.zero_emod, Int.toNat_zero, Nat.zero_and, Int.natCast_zero]
-        exact wrapInt_zero sg hpos
-      | flt b => simp
-      | bool => simp
-  | bool x =>
-    have hx : x = false := by simpa [Val.isZero] using hz
-    subst hx
-    cases mb <;> rfl
-  | bytes row =>
-    have hr : row.all (· == 0) = true := hz
-    cases ba with
-    | none =>
-      simp only
-      rw [Bool.eq_false_iff]
-      intro hany
-      obtain ⟨x, hx, hne⟩ := List.any_eq_true.1 hany
-      have := List.all_eq_true.1 hr x hx
-      simp only [beq_iff_eq] at this
-      subst this
-      simp at hne
-    | some l => exact zipAnd_zero row _ hr
-  | _ => cases hz
+  cases ba with
+  | none =>
+    simp only
+    rw [Bool.eq_false_iff]
+    intro hany
+    obtain ⟨x, hx, hne⟩ := List.any_eq_true.1 hany
+    have := List.all_eq_true.1 hr x hx
+    simp only [beq_iff_eq] at this
+    subst this
+    simp at hne
+  | some l => exact zipAnd_zero row _ hr
 
-/-- the blank of a wide mask, of a bit-packed mask and of an unsigned-integer mask with the
-    default sentinel is zero -/
-theorem blank_isZero_wide (n : Nat) (s : Val) : ((Kind.wide n).blank s).isZero = true := by
-  simp [Kind.blank, Val.isZero]
+/-- **the sentinel of a numeric mask map is never bad**, whatever its value -/
+theorem maskBadVal_sent_num {mask : MapObj} {dt : DT} {s : Int} {e : Nat}
+    (hk : mask.kind = .plain dt) (hs : mask.sent = .num s e) (mb : Option Int)
+    (ba : Option (List Nat)) : maskBadVal mask mb ba mask.sent = false := by
+  rw [Bool.eq_false_iff]
+  intro hbad
+  rw [hs] at hbad
+  have := maskBadVal_num_valid hbad
+  unfold MapObj.vc at this
+  rw [hk, hs] at this
+  simp [Kind.valid] at this
 
-theorem blank_isZero_packed (s : Val) : (Kind.packed.blank s).isZero = true := rfl
-
-theorem blank_isZero_unsigned (b : Nat) :
-    ((Kind.plain (.int b false)).blank (DT.int b false).defaultSentinel).isZero = true := rfl
+/-- **the blank cell of the mask map is never bad**: unconditionally for wide, bit-packed (and
+    record) kinds; for a plain kind when the sentinel is a number (every numeric map) or `False`.
+    (The remaining case — a plain BOOLEAN mask with sentinel `True` — is bad in the MODEL, whose
+    boolean branches have no validity conjunct; see the note in Props/C12.lean.) -/
+theorem maskBadVal_blank (mask : MapObj) (mb : Option Int) (ba : Option (List Nat))
+    (hs : ∀ dt, mask.kind = .plain dt → (∃ s e, mask.sent = .num s e) ∨ mask.sent = .bool false) :
+    maskBadVal mask mb ba (mask.kind.blank mask.sent) = false := by
+  cases hk : mask.kind with
+  | wide n => exact maskBadVal_zero_bytes mask mb ba _ (by simp)
+  | packed => cases mb <;> rfl
+  | recd fs pr => cases mb <;> rfl
+  | plain dt =>
+    show maskBadVal mask mb ba mask.sent = false
+    rcases hs dt hk with ⟨s, e, h⟩ | h
+    · exact maskBadVal_sent_num hk h mb ba
+    · rw [h]; cases mb <;> rfl
 
 /-- what a successful `apiAstype` returns -/
 theorem apiAstype_ok_st {m : MapObj} {dst : DT} {sentinel : Option Val} {m' : MapObj}
